@@ -23,13 +23,14 @@ var (
 // This function allocates regions starting at the end of the kernel address
 // space. It should only be used during the early stages of kernel initialization.
 func EarlyReserveRegion(size uintptr) (uintptr, *kernel.Error) {
-	size = (size + (mm.PageSize - 1)) & ^(mm.PageSize - 1)
+	roundedSize := (size + (mm.PageSize - 1)) & ^(mm.PageSize - 1)
 
-	// reserving a region of the requested size will cause an underflow
-	if size > earlyReserveLastUsed {
+	// reserving a region of the requested size will cause an underflow; a
+	// rounded size smaller than the requested one means the rounding wrapped
+	if roundedSize < size || roundedSize > earlyReserveLastUsed {
 		return 0, errEarlyReserveNoSpace
 	}
 
-	earlyReserveLastUsed -= size
+	earlyReserveLastUsed -= roundedSize
 	return earlyReserveLastUsed, nil
 }
